@@ -26,7 +26,7 @@ PROP_UNITS = {
     'C10': ['deps', 'ctr', 'belt'],
     'C11': ['deps', 'ctr', 'belt'],
     'C12': ['deps', 'cbc', 'pcbc', 'ige', 'cfb', 'cfb8', 'ofb', 'ctr', 'belt', 'cts'],
-    'C13': ['cts', 'cbc', 'pcbc', 'ige', 'cfb', 'cfb8', 'ofb', 'ctr', 'belt'],
+    'C13': ['deps', 'cts', 'cbc', 'pcbc', 'ige', 'cfb', 'cfb8', 'ofb', 'ctr', 'belt'],
     'C14': ['deps', 'lemmas', 'cts', 'ofb', 'cfb', 'ctr', 'belt', 'cbc'],
     'C16': ['ctr', 'cbc', 'pcbc', 'ige', 'cfb', 'cfb8', 'ofb', 'belt', 'cts'],
     'C15': ['lemmas', 'cbc', 'pcbc', 'ige', 'cfb', 'cfb8', 'ofb', 'ctr', 'belt'],
